@@ -147,11 +147,29 @@ def main(argv=None):
             results.append(_worker(j))
     else:
         ctx = mp.get_context("fork")
-        with ctx.Pool(min(a.jobs, n), maxtasksperchild=8) as pool:
-            for r in pool.imap_unordered(_worker, jobs, chunksize=1):
+        # check-level wall budget: the quick tier must answer within its slot even on a tree where many items
+        # degenerate (slow paths, many candidates); items not finished by then are reported as inconclusive
+        global_s = getattr(mod, "GLOBAL_WALL_S", {}).get(a.tier, 780 if a.tier == "quick" else 4 * 3600)
+        pool = ctx.Pool(min(a.jobs, n), maxtasksperchild=8)
+        try:
+            it_res = pool.imap_unordered(_worker, jobs, chunksize=1)
+            while len(results) < n:
+                left = global_s - (time.time() - t0)
+                try:
+                    r = it_res.next(timeout=max(1.0, left))
+                except mp.TimeoutError:
+                    unfinished = n - len(results)
+                    from pyhf_smt.harness import Result
+                    stub = Result(("<global budget>",))
+                    stub.inconclusive.append({"label": "<global budget>", "detail": f"{unfinished} of {n} work items not finished within {global_s}s"})
+                    results.append(stub)
+                    break
                 results.append(r)
                 if a.verbose:
                     print(f"  item {r.item}: paths={r.paths} obl={r.obligations} viol={len(r.violations)} inc={len(r.inconclusive)} {r.wall:.1f}s", flush=True)
+        finally:
+            pool.terminate()
+            pool.join()
 
     # ---- aggregate --------------------------------------------------------------------------------
     agg = dict(paths=0, obligations=0, discharged=0, syntactic=0, cells=0, queries=0, solver_time=0.0,
